@@ -585,30 +585,77 @@ pub fn cmd_gen(seed: u64, count: usize, out: &str, ty: &str, small: bool) {
 // Coded regions nested in a fan-out region: ColumnsRegion<HuffmanContainer<u8>> -> TraceCodedColumns.tla
 
 type CH = flatcontainer::ColumnsRegion<HuffmanContainer<u8>>;
+type FCH = flatcontainer::FlatStack<CH>;
 
-fn read_row(r: &CH, idx: usize) -> Value {
-    match guarded(|| {
-        let row = r.index(idx);
-        let cells: Vec<Value> = row.iter().map(|w| json_of(&w.into_owned())).collect();
-        let by_get: Vec<Value> = (0..row.len()).map(|j| json_of(&row.get(j).into_owned())).collect();
-        if cells != by_get {
-            return json!({"INCONSISTENT": "iter vs get"});
+fn render_row(row: flatcontainer::impls::columns::ReadColumns<'_, HuffmanContainer<u8>>) -> Value {
+    let cells: Vec<Value> = row.iter().map(|w| json_of(&w.into_owned())).collect();
+    let by_get: Vec<Value> = (0..row.len()).map(|j| json_of(&row.get(j).into_owned())).collect();
+    if cells != by_get {
+        return json!({"INCONSISTENT": "iter vs get"});
+    }
+    Value::Array(cells)
+}
+
+/// the object under test of the coded-columns scenarios: the bare region, or a FlatStack over it
+/// (copy / get / merge_capacity / clear / clone / clone_from) - same scenarios, same trace specification
+pub trait ColsSubject: Default + Clone {
+    fn push_row(&mut self, v: &Vec<Vec<u8>>) -> usize;
+    fn read(&self, id: usize) -> Value;
+    fn merged(srcs: &[&Self]) -> Self;
+    fn wipe(&mut self);
+}
+impl ColsSubject for CH {
+    fn push_row(&mut self, v: &Vec<Vec<u8>>) -> usize {
+        self.push(v)
+    }
+    fn read(&self, id: usize) -> Value {
+        match guarded(|| render_row(self.index(id))) {
+            Ok(v) => v,
+            Err(m) => json!({"PANIC": m}),
         }
-        Value::Array(cells)
-    }) {
-        Ok(v) => v,
-        Err(m) => json!({"PANIC": m}),
+    }
+    fn merged(srcs: &[&Self]) -> Self {
+        CH::merge_regions(srcs.iter().map(|r| *r))
+    }
+    fn wipe(&mut self) {
+        self.clear()
+    }
+}
+impl ColsSubject for FCH {
+    fn push_row(&mut self, v: &Vec<Vec<u8>>) -> usize {
+        self.copy(v);
+        self.len() - 1
+    }
+    fn read(&self, id: usize) -> Value {
+        match guarded(|| render_row(self.get(id))) {
+            Ok(v) => v,
+            Err(m) => json!({"PANIC": m}),
+        }
+    }
+    fn merged(srcs: &[&Self]) -> Self {
+        FCH::merge_capacity(srcs.iter().map(|r| *r))
+    }
+    fn wipe(&mut self) {
+        self.clear()
     }
 }
 
-/// `huffcols-run --seed N --runs K --out trace.ndjson`
-pub fn cmd_cols(seed: u64, runs: usize, out: &str) {
+pub fn cmd_cols(seed: u64, runs: usize, out: &str, as_stack: bool) {
+    if as_stack {
+        run_cols::<FCH>(seed, runs, out)
+    } else {
+        run_cols::<CH>(seed, runs, out)
+    }
+}
+
+/// `huffcols-run --seed N --runs K --out trace.ndjson [--as-stack]`
+fn run_cols<S: ColsSubject>(seed: u64, runs: usize, out: &str) {
     quiet_panics();
     let mut rng = StdRng::seed_from_u64(seed);
     let mut w = std::io::BufWriter::new(std::fs::File::create(out).expect("create"));
     for run in 1..=runs as u64 {
         let nslots = 4;
-        let mut slots: Vec<(CH, Vec<usize>, Vec<Value>, bool)> = (0..nslots).map(|_| (CH::default(), vec![], vec![], false)).collect();
+        let mut slots: Vec<(S, Vec<usize>, Vec<Value>, bool)> = (0..nslots).map(|_| (S::default(), vec![], vec![], false)).collect();
         writeln!(w, "{}", json!({"ev": "reset", "run": run, "nslots": nslots})).unwrap();
         let nsym = rng.gen_range(1..5u8);
         let cell = |rng: &mut StdRng, extra: u8| -> Vec<u8> { (0..rng.gen_range(0..4)).map(|_| rng.gen_range(0..nsym + extra)).collect() };
@@ -616,18 +663,35 @@ pub fn cmd_cols(seed: u64, runs: usize, out: &str) {
         let steps = rng.gen_range(6..16);
         // sources of different widths (slot 1 wide, slot 2 narrow, slot 3 wide with other symbols)
         let widths = [rng.gen_range(2..5usize), rng.gen_range(0..2usize), rng.gen_range(2..5usize), 0];
-        for step in 0..steps {
-            let r = rng.gen_range(0..100);
-            if step < 6 || r < 55 {
-                let s = if step < 6 { step % 3 } else { rng.gen_range(0..nslots) };
+        // forced follow-ups: after a merge, the (still empty, but coded) result is sometimes copied at once and the
+        // copy is offered a row with a symbol no source has seen
+        let mut forced: Vec<(&str, usize, usize)> = vec![];
+        let mut step = 0;
+        while step < steps || !forced.is_empty() {
+            step += 1;
+            let f = if forced.is_empty() { None } else { Some(forced.remove(0)) };
+            let r = match f {
+                Some(("copy", _, _)) => 80,
+                Some(("alien", _, _)) => 0,
+                _ => rng.gen_range(0..100),
+            };
+            let step = step - 1;
+            if step < 6 || r < 50 {
+                let s = match f {
+                    Some((_, s, _)) => s,
+                    None => if step < 6 { step % 3 } else { rng.gen_range(0..nslots) },
+                };
                 if slots[s].3 {
                     continue;
                 }
-                let width = if step < 6 { widths[s] } else { rng.gen_range(0..5) };
+                let width = if step < 6 && f.is_none() { widths[s] } else { rng.gen_range(0..5) };
                 // symbols of slot 3 are shifted so that only it knows them in the high columns
                 let extra = if rng.gen_bool(0.2) { 1 } else { 0 };
                 let mut v = row(&mut rng, width, extra);
-                if s == 2 {
+                if f.is_some() {
+                    v = (0..rng.gen_range(1..4)).map(|_| if rng.gen_bool(0.6) { vec![200u8] } else { cell(&mut rng, 0) }).collect();
+                }
+                if s == 2 && f.is_none() {
                     for c in v.iter_mut() {
                         for x in c.iter_mut() {
                             *x += 10;
@@ -636,7 +700,7 @@ pub fn cmd_cols(seed: u64, runs: usize, out: &str) {
                 }
                 let res = {
                     let reg = &mut slots[s].0;
-                    guarded(|| reg.push(&v))
+                    guarded(|| reg.push_row(&v))
                 };
                 let vj: Vec<Value> = v.iter().map(|c| json_of(c)).collect();
                 match res {
@@ -645,10 +709,10 @@ pub fn cmd_cols(seed: u64, runs: usize, out: &str) {
                         writeln!(w, "{}", json!({"ev": "cols_push", "run": run, "s": s + 1, "v": vj, "panic": true, "msg": m.chars().take(80).collect::<String>(), "read": [], "read_err": "", "stable": true})).unwrap();
                     }
                     Ok(idx) => {
-                        let rd = read_row(&slots[s].0, idx);
+                        let rd = slots[s].0.read(idx);
                         let mut stable = true;
                         for k in 0..slots[s].1.len() {
-                            if read_row(&slots[s].0, slots[s].1[k]) != slots[s].2[k] {
+                            if slots[s].0.read(slots[s].1[k]) != slots[s].2[k] {
                                 stable = false;
                             }
                         }
@@ -658,7 +722,7 @@ pub fn cmd_cols(seed: u64, runs: usize, out: &str) {
                         writeln!(w, "{}", json!({"ev": "cols_push", "run": run, "s": s + 1, "v": vj, "panic": false, "read": rv, "read_err": re, "stable": stable})).unwrap();
                     }
                 }
-            } else if r < 85 {
+            } else if r < 78 {
                 // merge into a slot from a random ordered selection of sources
                 let d = rng.gen_range(0..nslots);
                 let mut srcs: Vec<usize> = (0..nslots).filter(|x| !slots[*x].3 && rng.gen_bool(0.7)).collect();
@@ -666,20 +730,59 @@ pub fn cmd_cols(seed: u64, runs: usize, out: &str) {
                     srcs.swap(i, rng.gen_range(0..=i));
                 }
                 let m = {
-                    let refs: Vec<&CH> = srcs.iter().map(|&x| &slots[x].0).collect();
-                    guarded(|| CH::merge_regions(refs.as_slice().iter().map(|r| *r)))
+                    let refs: Vec<&S> = srcs.iter().map(|&x| &slots[x].0).collect();
+                    guarded(|| S::merged(refs.as_slice()))
                 };
                 let sj: Vec<usize> = srcs.iter().map(|x| x + 1).collect();
                 match m {
                     Ok(m) => {
                         slots[d] = (m, vec![], vec![], false);
                         writeln!(w, "{}", json!({"ev": "cols_merge", "run": run, "d": d + 1, "srcs": sj, "panic": false})).unwrap();
+                        if rng.gen_bool(0.35) {
+                            let d2 = (d + rng.gen_range(1..nslots)) % nslots;
+                            forced.push(("copy", d, d2));
+                            forced.push(("alien", d2, 0));
+                        }
                     }
                     Err(msg) => {
                         slots[d].3 = true;
                         writeln!(w, "{}", json!({"ev": "cols_merge", "run": run, "d": d + 1, "srcs": sj, "panic": true, "msg": msg})).unwrap();
                     }
                 }
+            } else if r < 90 {
+                // clone / clone_from (into whatever the destination holds): the copy is the source
+                let (s, d) = match f {
+                    Some(("copy", s, d)) => (s, d),
+                    _ => {
+                        let s = rng.gen_range(0..nslots);
+                        (s, (s + rng.gen_range(1..nslots)) % nslots)
+                    }
+                };
+                if slots[s].3 {
+                    continue;
+                }
+                let how = if rng.gen_bool(0.5) && !slots[d].3 { "clone_from" } else { "clone" };
+                let res = {
+                    let (src, dst) = if s < d {
+                        let (a, b) = slots.split_at_mut(d);
+                        (&a[s].0, &mut b[0].0)
+                    } else {
+                        let (a, b) = slots.split_at_mut(s);
+                        (&b[0].0, &mut a[d].0)
+                    };
+                    guarded(|| {
+                        if how == "clone_from" {
+                            dst.clone_from(src);
+                        } else {
+                            *dst = src.clone();
+                        }
+                    })
+                };
+                slots[d].1 = slots[s].1.clone();
+                slots[d].2 = slots[s].2.clone();
+                slots[d].3 = res.is_err();
+                let same = res.is_ok() && (0..slots[d].1.len()).all(|k| slots[d].0.read(slots[d].1[k]) == slots[d].2[k]);
+                writeln!(w, "{}", json!({"ev": "cols_copy", "run": run, "d": d + 1, "s": s + 1, "how": how, "panic": res.is_err(), "same": same})).unwrap();
             } else {
                 let s = rng.gen_range(0..nslots);
                 if slots[s].3 {
@@ -687,7 +790,7 @@ pub fn cmd_cols(seed: u64, runs: usize, out: &str) {
                 }
                 let res = {
                     let reg = &mut slots[s].0;
-                    guarded(|| reg.clear())
+                    guarded(|| reg.wipe())
                 };
                 slots[s].1.clear();
                 slots[s].2.clear();
